@@ -117,6 +117,7 @@ static void gen_mul(opcase_t *c, rng_t *r, int maxdim) {
   } else if (v == V__MUL_NAIVE) {
     rm_t *B = gen_mat(r, l, n, pb);
     c->in[2] = rm_transpose(B); /* the routine takes B pre-transposed */
+    c->plc[2] = PL_OWN;         /* its callers always hand it a freshly transposed (owned) matrix */
     rm_free(B);
   } else
     c->in[2] = gen_mat(r, l, n, pb);
